@@ -27,22 +27,22 @@ CHECKS = {
    text="after every step of histories with restarts, external damage (quarantines) and injected I/O failures the bytes of all blob files are compared with the previous snapshot (prefix / moved intact), the tap shows no write below the stored end, truncate, remove, re-create, rename over an existing file or blob id reuse, and query passes perform no writes",
    note="snapshots taken at quiescent points (worker barrier); strace view only in thorough tier"),
  "C08": dict(cat="exploration", tech="runtime monitoring: client-boundary history + per-key max-register checker, quiescence model check, independent disk parse, timing-free deadlock monitor (+ TSan/ASan in thorough)",
-   text="8..4000 concurrent client tasks with rotation, maintenance task and injected I/O delays; every read is checked against the recorded history (never stale, never foreign, never backwards), the quiescent state equals the model, every blob parses to exactly the acknowledged records, and 'pending operations + no I/O + no progress' is reported as deadlock",
+   text="8..4000 concurrent client tasks with rotation, maintenance task and injected I/O delays; every read is checked against the recorded history (never stale, never foreign, never backwards), the quiescent state equals the model and every quiescent read is the rank-first record of the independently parsed files (timestamp, blob id, position), every blob parses to exactly the acknowledged records, 'pending operations + no I/O + no progress' is reported as deadlock, and a racing-creators schedule (forced update held inside its blob creation while a client creates the next blob) must give the same answers before and after a restart",
    note="schedules are those produced by the OS/tokio in the run (counted, not enumerated)"),
  "C09": dict(cat="exploration", tech="runtime monitoring: differential oracle in-memory index vs B+tree file through the H3 index probe over systematically enumerated shapes",
    text="for thousands of enumerated header multisets (16 key lengths incl. block-exact ones, key counts through 1..3+ inner levels and every last-leaf remainder, version runs around block multiples, ties, markers) the file index must answer every present/absent key exactly like the in-memory index it was built from, also after reopen and after loading back; files are parsed independently",
    note="probe builds headers with the write path's layout arithmetic; shapes enumerated, not proved"),
  "C10": dict(cat="exploration", tech="runtime monitoring: no-false-negative oracle over random filter configs/key sets (public API), hierarchical container scripts, storage-level histories (+ Miri in thorough)",
-   text="bloom/range/combined filters: every added key is 'maybe' in memory, after raw round trip, off-loaded and probed byte-wise (answers equal in-memory answers), after merge; hierarchical filters under push/pop/remove/re-push/offload for group sizes 2..9; storage-level check_filters/check_filter/get_filter/read after every step of close/restore/offload histories",
+   text="bloom/range/combined filters: every added key is 'maybe' in memory, after raw round trip, off-loaded and probed byte-wise (answers equal in-memory answers), after merge; hierarchical filters under push/pop/remove/re-push/offload for group sizes 2..9; 4 threads adding through &self to one shared range / bloom / combined filter; storage-level check_filters/check_filter/get_filter/read after every step of close/restore/offload histories (incl. pearl's default bloom configuration and configuration changes across restarts)",
    note="cases generated for the seed; Miri run covers the aHash fallback unsafe code at small sizes"),
  "C11": dict(cat="fault_enumeration", tech="runtime monitoring: failpoint enumeration (n-th operation of each kind fails / is short) + model-differential oracle before, during and after the fault",
-   text="for random histories every (fault class, n) position (quick: sampled) is re-run with one injected failure: the call errs or the fault is contained, all earlier acknowledged data stays readable with correct bytes for the rest of the session and after restart (or sits in a quarantined blob), the failed operation is never served, the storage keeps working and rotating",
+   text="for random histories every (fault class, n) position (quick: sampled) is re-run with one injected failure: the call errs or the fault is contained, all earlier acknowledged data stays readable with correct bytes for the rest of the session and after restart (or sits in a quarantined blob), the failed operation is never served, the storage keeps working and rotating; error kinds EIO, ENOSPC, ENOENT, EACCES, short writes, and kernel-made short writes through RLIMIT_FSIZE",
    note="faults injected at pearl's File layer (H1), one per run; partially applied multi-blob deletes are excluded per key"),
  "C12": dict(cat="exploration", tech="runtime monitoring: online checker over the ordered I/O tap trace (writes, syncs, index headers)",
-   text="over complete traces of sequential histories and six dirty-byte limits: un-synced bytes of the active blob <= limit after each acknowledged operation + barrier, header synced before first record, index marked complete only for synced blob sizes, nothing dirty after explicit fsyncdata / close",
+   text="over complete traces of sequential histories and six dirty-byte limits: un-synced bytes of the active blob <= limit after each acknowledged operation + barrier, header synced before first record, index marked complete only for synced blob sizes (also on a kill image that is recovered), nothing dirty after explicit fsyncdata / close; concurrent writers with delayed writes and explicit syncs; a sync request still queued when the active blob is closed must not stop later background syncs",
    note="ground truth for 'synced' = file length covered by a completed sync under the per-file tap lock"),
  "C13": dict(cat="exploration", tech="runtime monitoring: bounded-liveness probe (worker-alive hook, overflow -> rotation, dumps complete, close under a timing-free hang monitor)",
-   text="after random call sequences over the whole API incl. inapplicable background requests: the worker task is alive, overflowing the active blob leads to a new blob within 3 writes after the debounce, every closed blob gets its index file, a dump requested while another dump runs is not lost, close returns",
+   text="after random call sequences over the whole API incl. inapplicable background requests: the worker task is alive, overflowing the active blob leads to a new blob within 3 writes after the debounce, every closed blob gets its index file, a dump requested while another dump runs or during a dump pass longer than its time slice is not lost, deferred dumps fire (two requests inside one window), rotation survives a wall-clock step, a full worker channel and a request still queued when the active blob is closed, close returns",
    note="liveness restated as bounded progress; only pearl's own 200 ms debounce and deferred-dump timers are waited out"),
  "C14": dict(cat="fault_enumeration", tech="runtime monitoring: enumeration of cancellation points with a counting waker + 'maybe applied' model oracle + independent parse after restart",
    text="every operation kind x runtime flavour x fresh/reopened blob is dropped at each of its suspension points (k = 1..), with and without a racing next write; afterwards the surface must equal 'applied' or 'not applied' as a whole (switching only at restart), other data stays readable, 10 more operations work, all blobs parse and nothing is quarantined",
@@ -54,7 +54,7 @@ CHECKS = {
    text="validate_blob/validate_index accept produced files and reject every enumerated truncation/alteration (undetectable classes are listed known findings); recovery (skip on/off), move_and_recover, migration and the reader tools are checked record-for-record against the independent parser, and the storage must serve what recovery wrote",
    note="well-formedness defined by the independent parser; three known findings for regions without checksum"),
  "C17": dict(cat="exploration", tech="runtime monitoring: differential replay of a corpus written and answered by the pinned release, exhaustive over index-file subsets",
-   text="18 directories written by the pinned tree (4 key sizes, 3 bloom configs, 1-4 blobs) are opened by the current tree under every subset of removed index files, eager/lazy and with filters off-loaded: all recorded answers must be reproduced; version / key-size mismatches must be rejected or quarantined intact, never misread",
+   text="22 directories written by the pinned tree (4 key sizes, no bloom / two small / pearl's default bloom config, 1-4 blobs, multi-leaf indexes) plus 552 bloom vectors (serialised one-key filters for every key-length class of the hash) are opened / rebuilt by the current tree under every subset of removed index files, eager/lazy and with filters off-loaded: all recorded answers must be reproduced; version / key-size mismatches must be rejected or quarantined intact, never misread",
    note="corpus generated once from the pinned commit (tools/gen_corpus.sh), committed under corpus/"),
 }
 
